@@ -12,6 +12,7 @@ import random
 
 from scen import Scn
 import scenario_common as sc
+import mcrapid
 
 SUBSETS = [[], ["INVOKE"], ["SHUTDOWN"], ["INVOKE", "SHUTDOWN"]]
 BOUND = None  # all event kinds except telemetry are bound (see scenario_common / traceprep)
@@ -68,6 +69,8 @@ def scenarios(ctx):
 
 def run(ctx):
     ctx.level = "model_checking"
+    # E1: the property predicates as invariants of the composite (spec/MC_Rapid.tla)
+    mcrapid.check(ctx, ['DoneOnlyAfterAll'])
     ctx.assumptions += sc.ASSUME
     scs = scenarios(ctx)
     sc.run_families(ctx, scs, "fanout")
